@@ -58,3 +58,18 @@ Fixpoint core2_stmt (s : stmt) : bool :=
   end.
 Fixpoint core2_prog (p : list stmt) : bool :=
   match p with [] => true | s :: r => core2_stmt s && core2_prog r end.
+
+(* the fragment: the loop-filter / with-target fragment plus macro definitions at top level
+   ([tl] = we are in the root frame, possibly inside if-branches); macros are never called *)
+Fixpoint core3_stmt (tl : bool) (s : stmt) : bool :=
+  let fix go (tl : bool) (l : list stmt) : bool := match l with [] => true | x :: r => core3_stmt tl x && go tl r end in
+  match s with
+  | SOut _ | SSet _ _ | SSetAttr _ _ _ | SNsNew _ _ => true
+  | SIf _ b ei el => go tl b && go tl ei && go tl el
+  | SFor _ _ _ b el => go false b && go false el
+  | SSetBlock _ b | SWith _ b | SFilter _ b => go false b
+  | SMacro _ _ _ => tl
+  | SCallOut _ _ | SCallBlock _ _ _ _ => false
+  end.
+Fixpoint core3_prog (tl : bool) (p : list stmt) : bool :=
+  match p with [] => true | s :: r => core3_stmt tl s && core3_prog tl r end.
